@@ -410,9 +410,14 @@ pub fn split_replies(out: &[u8]) -> Vec<Sx> {
 }
 
 pub fn decode_frame(frame: &[u8]) -> Sx {
-    match serde_json::from_slice::<varlink::Request>(frame) {
-        Err(_) => sx::atom("bad"),
-        Ok(r) => sx::tagged(
+    // the library's own decision procedure (lib.rs handle()): UTF-8 throughout, then serde_json on the text
+    let parsed = match std::str::from_utf8(frame) {
+        Err(_) => None,
+        Ok(text) => serde_json::from_str::<varlink::Request>(text).ok(),
+    };
+    match parsed {
+        None => sx::atom("bad"),
+        Some(r) => sx::tagged(
             "req",
             vec![
                 sx::opt_bool(r.more),
@@ -789,9 +794,27 @@ pub fn gen_request(rng: &mut Rng, cfg: &SvcCfg, token: &str) -> GenReq {
             _ => json!({"method":"org.example.crlf.Ping","parameters":{"token": 3}}),
         };
     } else if choice < 85 {
+        if !cfg.scripts.is_empty() && rng.chance(1, 3) {
+            // a registered name in another spelling (ASCII case) is an unknown interface; should it be
+            // dispatched all the same, the script makes that visible
+            kind = "unknown-iface-case-variant".to_string();
+            let name = rng.pick(&cfg.scripts).clone();
+            let mut flipped: String = name
+                .chars()
+                .map(|c| if rng.chance(1, 2) { if c.is_ascii_lowercase() { c.to_ascii_uppercase() } else { c.to_ascii_lowercase() } } else { c })
+                .collect();
+            if flipped == name {
+                flipped = if name.chars().any(|c| c.is_ascii_lowercase()) { name.to_ascii_uppercase() } else { name.to_ascii_lowercase() };
+            }
+            if cfg.scripts.contains(&flipped) || flipped == name {
+                flipped = format!("{}{}", flipped, token);
+            }
+            v = json!({"method": format!("{}.Run", flipped), "parameters": {"token": token, "script": [{"op":"reply","p":{"token": token, "i": 0}}]}});
+        } else {
         kind = "unknown-iface".to_string();
         let base = *rng.pick(&["no.such", "a", "a.b.d", "org.varlink.servic", "org.varlink.service.x", "a.b-", "ü.é"]);
         v = json!({"method": format!("{}{}.M", base, token), "parameters": {"token": token}});
+        }
     } else if choice < 93 {
         kind = "nodot".to_string();
         let m = match rng.below(4) {
@@ -820,7 +843,36 @@ pub fn gen_request(rng: &mut Rng, cfg: &SvcCfg, token: &str) -> GenReq {
 /// a frame serde_json must reject (or that is at least hostile)
 pub fn gen_malformed(rng: &mut Rng, cfg: &SvcCfg, token: &str) -> GenReq {
     let good = gen_request(rng, cfg, token).bytes;
-    let (bytes, kind): (Vec<u8>, &str) = match rng.below(18) {
+    let (bytes, kind): (Vec<u8>, &str) = match rng.below(20) {
+        18 | 19 => {
+            // bytes that are not UTF-8 where a parser that only looks at what it needs never looks: inside
+            // the string value (or the name) of an envelope member the library has no use for
+            let bad: &[u8] = match rng.below(4) {
+                0 => b"\xfe",
+                1 => b"\xc3",
+                2 => b"\xed\xa0\x80",
+                _ => b"\xf8\x88\x80\x80\x80",
+            };
+            let mut v = Vec::new();
+            match rng.below(3) {
+                0 => {
+                    v.extend_from_slice(b"{\"method\":\"org.varlink.service.GetInfo\",\"comment\":\"a");
+                    v.extend_from_slice(bad);
+                    v.extend_from_slice(format!("b\",\"parameters\":{{\"token\":\"{}\"}}}}", token).as_bytes());
+                }
+                1 => {
+                    v.extend_from_slice(format!("{{\"parameters\":{{\"token\":\"{}\"}},\"x", token).as_bytes());
+                    v.extend_from_slice(bad);
+                    v.extend_from_slice(format!("\":1,\"method\":\"no.such{}.M\"}}", token).as_bytes());
+                }
+                _ => {
+                    v.extend_from_slice(format!("{{\"method\":\"no.such{}.M\",\"ignored\":[[\"", token).as_bytes());
+                    v.extend_from_slice(bad);
+                    v.extend_from_slice(b"\"]]}");
+                }
+            }
+            (v, "bad:utf8-in-ignored-member")
+        }
         16 | 17 => {
             // two defects in one message: a semantic one first (wrong type / missing member / truncation),
             // bytes that are not UTF-8 later
@@ -883,7 +935,7 @@ pub fn gen_malformed(rng: &mut Rng, cfg: &SvcCfg, token: &str) -> GenReq {
                     10 => { if !g.is_empty() { let i = rng.below(g.len()); g.remove(i); } }
                     _ => { let i = rng.below(g.len() + 1); g.insert(i, 0xC3); }
                 }
-                if serde_json::from_slice::<varlink::Request>(&g).is_err() {
+                if serde_json::from_slice::<varlink::Request>(&g).is_err() || std::str::from_utf8(&g).is_err() {
                     res = Some(g);
                     break;
                 }
@@ -1188,6 +1240,31 @@ impl Suite for WireSuite {
                             tags: vec!["script-x-flags".into(), format!("kind:script:{}", name), format!("flags:{}", fl.join("+"))],
                         });
                     }
+                }
+            }
+        }
+        // registered names in another spelling x flags: unknown interfaces, whatever the flags
+        {
+            let cfg = &cfgs[1];
+            let flagsets: Vec<Vec<&str>> = vec![vec![], vec!["more"], vec!["oneway"], vec!["oneway", "more"], vec!["upgrade"]];
+            for m in ["Org.Example.S.Run", "ORG.EXAMPLE.S.Run", "org.example.S.Run", "Org.Varlink.Service.GetInfo", "org.varlink.Service.GetInfo",
+                      "ORG.VARLINK.SERVICE.GetInterfaceDescription"] {
+                for fl in flagsets.iter() {
+                    tok += 1;
+                    let t = format!("t{}cz", tok);
+                    let mut v = json!({"method": m, "parameters": {"token": t, "interface": "org.example.s", "script": [{"op":"reply","p":{"token": t, "i": 0}}]}});
+                    for f in fl.iter() {
+                        v[*f] = json!(true);
+                    }
+                    let mut total = serde_json::to_vec(&v).unwrap();
+                    total.push(0);
+                    let follow = json!({"method":"org.varlink.service.GetInfo","parameters":{"token": format!("t{}fz", tok)}});
+                    total.extend_from_slice(&serde_json::to_vec(&follow).unwrap());
+                    total.push(0);
+                    cases.push(Case {
+                        input: mk_case(if tok % 2 == 0 { "whole" } else { "feed" }, cfg, &[total.clone()], &total),
+                        tags: vec!["case-variant-x-flags".into(), format!("flags:{}", fl.join("+"))],
+                    });
                 }
             }
         }
